@@ -173,8 +173,23 @@ Definition line_filter_clause (op : lfop) (val : string) (re_lit : option (strin
 (* ---------- ParserPlanner (json with parameters) ---------- *)
 (* since the repair json-path-alias the whole path is printed in each of the three calls (`'a','b' as jp_1` named only the
    last argument, so the two extractions read the top-level key 'b'); no id is drawn any more *)
+(* a part of the path: a key is printed as a string literal; an [n] part reaches ClickHouse as a NUMBER (the index counted
+   from 1 - a string argument of JSONExtract* names an object key; repair json-index-part-printed-as-key).  pp_path keeps
+   its type: the oracle hands an index part over as the byte 0 followed by the decimal digits of n+1, and a key that itself
+   begins with the byte 0 with that byte doubled *)
+Definition json_part (s : string) : expr :=
+  match s with
+  | String c d =>
+    if Ascii.eqb c "000"%char then
+      match d with
+      | String c2 _ => if Ascii.eqb c2 "000"%char then StrV d else Raw d
+      | EmptyString => Raw d
+      end
+    else StrV s
+  | EmptyString => StrV s
+  end.
 Definition json_path_sql (path : list string) : expr :=
-  let p := Sep "," (map StrV path) in
+  let p := Sep "," (map json_part path) in
   Fn "if" [Sep " == " [Fn "JSONType" [Id "string"; p]; StrV "String"];
            Fn "JSONExtractString" [Id "string"; p];
            Fn "JSONExtractRaw" [Id "string"; p]].
